@@ -282,6 +282,98 @@ theorem cat_core_root (h1 : t1.length = p1.length ∧ x1.length = p1.length ∧ 
       cases o <;> rfl
     all_goals rw [catPre_true _ _ _ _ _ _ _ _ _ _ _ _ hr (by omega) (by omega) (by omega)]
 
+theorem redirect_lengths (pids types : List Int) (k : Int) :
+    (redirect pids types k).pids.length = pids.length ∧ (redirect pids types k).types.length = types.length := by
+  simp [redirect, reversePath_length, setAt_length]
+
+/-- the model does not distinguish "re-root the second tree at `node2`" from "start from the re-rooted second tree" -/
+theorem catPre_redirected (hnr : ¬ p2.getD node2 (-1) = -1)
+    (hq : (redirect p2 t2 (node2 : Int)).pids.getD node2 (-1) = -1) :
+    catPre p1 t1 x1 y1 z1 p2 t2 x2 y2 z2 (node1 : Int) (node2 : Int) translate =
+      catPre p1 t1 x1 y1 z1 (redirect p2 t2 (node2 : Int)).pids (redirect p2 t2 (node2 : Int)).types x2 y2 z2 (node1 : Int) (node2 : Int)
+        translate := by
+  have hl := (redirect_lengths p2 t2 (node2 : Int)).1
+  simp only [catPre, Int.toNat_natCast, if_neg hnr, hq, if_true, hl]
+
+/-- when `node2` is not the root of the second tree, the generated function first re-roots it (the generated `redirect_tree`, which
+is the model `Redir.redirect`) and then does what it does on the re-rooted tree -/
+theorem cat_redirected (ht2 : t2.length = p2.length) (hn2 : node2 < p2.length) (hnr : ¬ p2.getD node2 (-1) = -1)
+    (hval : ∀ w ∈ rootPath p2 p2.length (node2 : Int), 0 ≤ w ∧ w < p2.length)
+    (hlast : ∀ z, (rootPath p2 p2.length (node2 : Int)).getLast? = some z → p2.getD z.toNat (-1) = -1)
+    (hq : (redirect p2 t2 (node2 : Int)).pids.getD node2 (-1) = -1) (F : Nat) :
+    cat_tree (p2.length + 1 + F) (rng p1.length) p1 t1 x1 y1 z1 (rng p2.length) p2 t2 x2 y2 z2 node1 node2 translate =
+      cat_tree (p2.length + 1 + F) (rng p1.length) p1 t1 x1 y1 z1 (rng (redirect p2 t2 (node2 : Int)).pids.length)
+        (redirect p2 t2 (node2 : Int)).pids (redirect p2 t2 (node2 : Int)).types x2 y2 z2 node1 node2 translate := by
+  have hl := (redirect_lengths p2 t2 (node2 : Int)).1
+  have hred := redirect_nosort p2 t2 (node2 : Int) ht2 hval hlast F
+  have hroot : node_is_root p2 (node2 : Int) = some false := by
+    rw [RefineNode.node_is_root_eq, idx_getD p2 node2 hn2]
+    have : ¬ p2.getD node2 0 = -1 := by
+      rw [List.getD_eq_getElem?_getD] at hnr ⊢; simpa [hn2] using hnr
+    rw [Option.map_some]; simp only [this, decide_false]
+  have hroot' : node_is_root (redirect p2 t2 (node2 : Int)).pids (node2 : Int) = some true := by
+    rw [RefineNode.node_is_root_eq, idx_getD _ node2 (by omega)]
+    have : (redirect p2 t2 (node2 : Int)).pids.getD node2 0 = -1 := by
+      rw [List.getD_eq_getElem?_getD] at hq ⊢; simpa [hn2, hl] using hq
+    rw [this]; rfl
+  rw [hl]
+  simp only [cat_tree, cat_tree.body, seq, Py.bind, hroot, hroot', hred, skip, Bool.not_true, Bool.not_false, Bool.false_eq_true,
+    if_false, if_true]
+
+/-- **`cat_tree` as translated, up to the final `_sort_tree`, IS the model `Redir.catPre`**: on two tree objects (ids = positions) with
+equally long columns, a node of each, and a second tree whose walk from `node2` to its root behaves (it does in every well-formed
+tree), nothing raises before the final sort, and the generated `_sort_tree` (six columns) is applied to exactly the columns of
+`catPre` — tree 1's rows, tree 2's rows re-rooted, shifted and translated, the junction link or the merge -/
+theorem cat_core (h1 : t1.length = p1.length ∧ x1.length = p1.length ∧ y1.length = p1.length ∧ z1.length = p1.length)
+    (h2 : t2.length = p2.length ∧ x2.length = p2.length ∧ y2.length = p2.length ∧ z2.length = p2.length)
+    (hn1 : node1 < p1.length) (hn2 : node2 < p2.length)
+    (hval : ∀ w ∈ rootPath p2 p2.length (node2 : Int), 0 ≤ w ∧ w < p2.length)
+    (hlast : ∀ z, (rootPath p2 p2.length (node2 : Int)).getLast? = some z → p2.getD z.toNat (-1) = -1)
+    (hq : (redirect p2 t2 (node2 : Int)).pids.getD node2 (-1) = -1) (F : Nat) :
+    cat_tree (p2.length + 1 + F) (rng p1.length) p1 t1 x1 y1 z1 (rng p2.length) p2 t2 x2 y2 z2 node1 node2 translate =
+      sort_tree6_ (p2.length + 1 + F) (catPre p1 t1 x1 y1 z1 p2 t2 x2 y2 z2 node1 node2 translate).ids
+        (catPre p1 t1 x1 y1 z1 p2 t2 x2 y2 z2 node1 node2 translate).pids
+        (catPre p1 t1 x1 y1 z1 p2 t2 x2 y2 z2 node1 node2 translate).types
+        (catPre p1 t1 x1 y1 z1 p2 t2 x2 y2 z2 node1 node2 translate).x
+        (catPre p1 t1 x1 y1 z1 p2 t2 x2 y2 z2 node1 node2 translate).y
+        (catPre p1 t1 x1 y1 z1 p2 t2 x2 y2 z2 node1 node2 translate).z := by
+  by_cases hr : p2.getD node2 (-1) = -1
+  · exact cat_core_root p1 t1 x1 y1 z1 p2 t2 x2 y2 z2 node1 node2 translate h1 h2 hn1 hn2 hr _
+  · obtain ⟨hl, hlt⟩ := redirect_lengths p2 t2 (node2 : Int)
+    rw [cat_redirected p1 t1 x1 y1 z1 p2 t2 x2 y2 z2 node1 node2 translate h2.1 hn2 hr hval hlast hq F,
+      catPre_redirected p1 t1 x1 y1 z1 p2 t2 x2 y2 z2 node1 node2 translate hr hq]
+    exact cat_core_root p1 t1 x1 y1 z1 _ _ x2 y2 z2 node1 node2 translate h1
+      ⟨by rw [hlt, hl]; exact h2.1, by rw [hl]; exact h2.2.1, by rw [hl]; exact h2.2.2.1, by rw [hl]; exact h2.2.2.2⟩ hn1
+      (by rw [hl]; exact hn2) hq _
+
+/-- **`cat_tree` as translated, as a whole, IS the model `Redir.catTree`** whenever the model's final renumbering succeeds on the
+concatenated table (it does for well-formed trees: `C07.cat_separate_sorted`, `C07.cat_merged_sorted`): ids `arange`, the new
+parents, and the type / x / y / z columns carried along by the row permutation -/
+theorem cat_refines (h1 : t1.length = p1.length ∧ x1.length = p1.length ∧ y1.length = p1.length ∧ z1.length = p1.length)
+    (h2 : t2.length = p2.length ∧ x2.length = p2.length ∧ y2.length = p2.length ∧ z2.length = p2.length)
+    (hn1 : node1 < p1.length) (hn2 : node2 < p2.length)
+    (hval : ∀ w ∈ rootPath p2 p2.length (node2 : Int), 0 ≤ w ∧ w < p2.length)
+    (hlast : ∀ z, (rootPath p2 p2.length (node2 : Int)).getLast? = some z → p2.getD z.toNat (-1) = -1)
+    (hq : (redirect p2 t2 (node2 : Int)).pids.getD node2 (-1) = -1)
+    (c : Cat) (hc : c = catPre p1 t1 x1 y1 z1 p2 t2 x2 y2 z2 node1 node2 translate)
+    (hnd : c.ids.Nodup) (hle : c.ids.length ≤ p1.length + p2.length)
+    (hl : c.pids.length = c.ids.length ∧ c.types.length = c.ids.length ∧ c.x.length = c.ids.length ∧ c.y.length = c.ids.length ∧
+      c.z.length = c.ids.length)
+    (r : Result) (h : sortNodesImpl c.ids c.pids = .ok r) (F : Nat) :
+    cat_tree (p1.length + p2.length + 1 + F) (rng p1.length) p1 t1 x1 y1 z1 (rng p2.length) p2 t2 x2 y2 z2 node1 node2 translate =
+        some (range (c.ids.length : Int), r.newPids, permute c.types r.indices, permute c.x r.indices, permute c.y r.indices,
+          permute c.z r.indices, ()) ∧
+      catTree p1 t1 x1 y1 z1 p2 t2 x2 y2 z2 node1 node2 translate =
+        some (r.newPids, r.idMap, ⟨r.idMap, r.newPids, permute c.x r.indices, permute c.y r.indices, permute c.z r.indices,
+          permute c.types r.indices⟩) := by
+  constructor
+  · have e1 : p1.length + p2.length + 1 + F = p2.length + 1 + (p1.length + F) := by omega
+    rw [e1, cat_core p1 t1 x1 y1 z1 p2 t2 x2 y2 z2 node1 node2 translate h1 h2 hn1 hn2 hval hlast hq, ← hc]
+    have e2 : p2.length + 1 + (p1.length + F) = c.ids.length + 1 + (p1.length + p2.length - c.ids.length + F) := by omega
+    rw [e2]
+    exact sortTree6_refines c.ids c.pids c.types c.x c.y c.z hnd hl.1 hl.2.1 hl.2.2.1 hl.2.2.2.1 hl.2.2.2.2 r h _
+  · simp only [catTree, ← hc, h]
+
 end core
 
 end RefineCat
